@@ -4,3 +4,4 @@ pub mod alpha;
 pub mod roots;
 pub mod fmt_templates;
 pub mod shapes;
+pub mod faulty;
